@@ -688,6 +688,74 @@ func Harness_C18opts(n int) {
 '''.replace("OTHERCALL", "other := runReal(inA, AllowInvalidUTF8(true), Recover(false), MaxExpressions(1<<20))" if g.get("_optimized") else
            "var stO Stats\n\tother := runReal(inA, AllowInvalidUTF8(true), Recover(false), MaxExpressions(1<<20), Memoize(true), Debug(true), Statistics(&stO, \"no match\"))"))
         s.append('''
+// C18 (one Option value passed to several calls): option values are ordinary Go
+// values - a program may build its option list once and hand it to every Parse
+// call, from several goroutines. Using an option must therefore not write to
+// anything the option value holds (engine: ownership monitor over everything
+// reachable from the option list; the documented out-parameter of Statistics is
+// the exception and is not in the list), and three calls with the one list must
+// behave like calls with lists of their own.
+func Harness_C18sharedopts(n int) {
+	inA := symInputNamed("a", n, true)
+	inB := symInputNamed("b", n, true)
+	opts := []Option{SHAREDOPTS}
+	symMonitor("ownership-lifo")
+	symShare(opts)
+	alone := runReal(inB, opts...)
+	other := runReal(inA, opts...)
+	again := runReal(inB, opts...)
+	symMonitor("off")
+	own := runReal(inB, SHAREDOPTS)
+	symNote(outcomeNote(alone) + "/" + outcomeNote(other))
+	symAssert(!alone.panicked && !other.panicked && !again.panicked, "C18: Parse panicked")
+	symAssert(symEqual(alone.v, again.v) && symEqual(alone.v, own.v), "C18: the value of a Parse depends on its option values having been used by another call")
+	symAssert(sameStrings(errStrings(alone.err), errStrings(again.err)) && sameStrings(errStrings(alone.err), errStrings(own.err)), "C18: the errors of a Parse depend on its option values having been used by another call")
+	symAssert(symEqual(alone.tr, again.tr) && symEqual(alone.tr, own.tr), "C18: the code blocks of a Parse saw different contexts because its option values had been used by another call")
+	symReach("end")
+}
+
+// Native confirmation for the family above (race detector): 8 goroutines x 50
+// Parse calls, all with the one option list.
+func Harness_C18nativeopts(n int) {
+	inA := symInputNamed("a", n, true)
+	inB := symInputNamed("b", n, true)
+	opts := []Option{SHAREDOPTS}
+	var wg sync.WaitGroup
+	results := make([][]outcome, 8)
+	for g := 0; g < 8; g++ {
+		wg.Add(1)
+		go func(g int) {
+			defer wg.Done()
+			for i := 0; i < 50; i++ {
+				in := inA
+				if (g+i)%2 == 1 {
+					in = inB
+				}
+				results[g] = append(results[g], runReal(in, opts...))
+			}
+		}(g)
+	}
+	wg.Wait()
+	aloneA := runReal(inA, SHAREDOPTS)
+	aloneB := runReal(inB, SHAREDOPTS)
+	var bad int32
+	for g := 0; g < 8; g++ {
+		for i, o := range results[g] {
+			want := aloneA
+			if (g+i)%2 == 1 {
+				want = aloneB
+			}
+			if !symEqual(o.v, want.v) || !sameStrings(errStrings(o.err), errStrings(want.err)) || !symEqual(o.tr, want.tr) {
+				atomic.AddInt32(&bad, 1)
+			}
+		}
+	}
+	symAssert(bad == 0, "C18: concurrent Parse calls sharing one option list returned results different from the stand-alone results")
+	symReach("end")
+}
+'''.replace("SHAREDOPTS", "AllowInvalidUTF8(true), Recover(true), MaxExpressions(1<<20), GlobalStore(\"zz\", 1)" if g.get("_optimized") else
+           "Debug(true), Memoize(true), AllowInvalidUTF8(true), Recover(true), MaxExpressions(1<<20), GlobalStore(\"zz\", 1)"))
+        s.append('''
 // Native confirmation of an ownership-discipline violation (run under the
 // race detector, never by the engine): 8 goroutines x 200 Parse calls on the
 // two inputs of the model; every result must equal the stand-alone result.
